@@ -24,9 +24,10 @@ RULES = {
     "R5": "the winner is looked up among the allowed ids: ids[mask][scores[mask].argmin()] with mask = isin(ids, allowed)",
     "R6": "the derived screen attributes this property's code relies on (is_observed, n_unique_samples, unique_sample_ids) have their documented definitions in ScreenBase and every override",
     "R7": "the view algebra this property's code relies on: plates = one view per unique plate id, get_plate = the rows with that id, subset_(un)observed, combine / concat as unions over one parent (C14.R3 run here)",
+    "R9": "the batch the policy sees is the whole batch: the orchestration script collects the selected plates of every step directory of the iteration (glob family plate_*; C19.R9 run here)",
     "R8": "constructor options are live: every attribute the constructor binds from a parameter is read by a method of the class",
 }
-MIN = {"R1": 1, "R2": 1, "R3": 7, "R4": 2, "R5": 2, "R6": 3, "R7": 8, "R8": 1}
+MIN = {"R1": 1, "R2": 1, "R3": 7, "R4": 2, "R5": 2, "R6": 3, "R7": 8, "R8": 1, "R9": 10}
 TRUSTED = ["python dict/defaultdict semantics", "Plate.sample_ids[0] is the plate's sample once R1 holds"]
 TECHNIQUE = "guard dominance on the CFG, counter-idiom recognition, integer relational normal forms of the thresholds"
 LEVEL_TEXT = ("Decides the filter's one-step contract (who may be returned, under which integer thresholds) for all k and "
@@ -428,7 +429,12 @@ def r_options(ctx):
     common.options_are_live(ctx, "R8", ["batchie.policies.k_per_sample.KPerSamplePlatePolicy"], exempt=())
 
 
-RULE_FUNCS = [r1, r2, r3, r3_deviant, r4, r5, r_derived, r_views, r_options]
+def r_globs(ctx):
+    from . import C19
+    ctx.borrow(C19.r9, "R9")
+
+
+RULE_FUNCS = [r1, r2, r3, r3_deviant, r4, r5, r_derived, r_views, r_options, r_globs]
 
 
 def run(ctx):
@@ -445,6 +451,7 @@ def _rep(a, b):
 
 
 WITNESSES = [
+    ("selected plates of single-digit steps only", "orchestrator", _rep('glob.glob(os.path.join(output_dir, "plate_*", "*", "selected_plate"))', 'glob.glob(os.path.join(output_dir, "plate_[0-9]", "*", "selected_plate"))'), ["R9"]),
     ("sample in progress tested by truthiness", "batchie.policies.k_per_sample", _rep("        if sample_chosen is not None:", "        if sample_chosen:"), ["R3"]),
     ("insufficient threshold <=", "batchie.policies.k_per_sample", _rep("            if v < self.k:\n                sample_ids_with_insufficient_plates.add(sample_id)", "            if v <= self.k:\n                sample_ids_with_insufficient_plates.add(sample_id)"), ["R3"]),
     ("in-progress arm appends every plate", "batchie.policies.k_per_sample", _rep("                if sample_id == sample_chosen:\n                    result.append(plate)", "                result.append(plate)"), ["R3"]),
